@@ -366,6 +366,16 @@ def part_c(ctx, cov, dist, rng, repo, only=None):
         return
     transports = {d.id: d.name for d in pool.descs if d.rcmd}
     luser = pwd.getpwuid(1000).pw_name
+    # which form of hostlist_register_rcmd is this?  (F09-2BR repaired = the registered names are expanded
+    # like the target list: `u9@f[1-2]-[0-1]` makes f1-0 a u9 host)
+    margs = ["model", "unchanged"]
+    pr = preload.run_pdsh(pool, exe, ["-R", "t1", "-w", "u9@f[1-2]-[0-1]", "true"], moddir_env=pool.dir,
+                          fake_dir=pool.dir, dirlist=["r01.so"], argv0=exe)
+    plog = [l.split() for l in pr["log"] if l.startswith("rcmd ")]
+    if plog and all(w[5] == hx("u9") for w in plog):
+        margs.append("reexpand")
+        ctx.log("hostlist_register_rcmd re-expands the names (F09-2BR repaired): model runs as `reexpand`")
+    dist["reg_variant"] = " ".join(margs)
     n = 3000 if ctx.quick() else 20000
     recs = []
     for c in ((gen_reg_case(rng, transports) for _ in range(n)) if only is None else only):
@@ -374,10 +384,21 @@ def part_c(ctx, cov, dist, rng, repo, only=None):
         extra_env = {"PDSH_RCMD_TYPE": c["envtype"]} if c["envtype"] is not None else {}
         r = preload.run_pdsh(pool, exe, c["argv"], moddir_env=pool.dir, fake_dir=pool.dir, dirlist=files,
                              extra_env=extra_env, argv0=exe)
+        if r["rc"] not in (0, 1):
+            # abnormal end (signal): an observable -- but only when it can be shown again; a one-off that does not
+            # come back in 5 more runs of the same command line is counted and logged, not reported for C09
+            again = [preload.run_pdsh(pool, exe, c["argv"], moddir_env=pool.dir, fake_dir=pool.dir, dirlist=files,
+                                      extra_env=extra_env, argv0=exe) for _ in range(5)]
+            bad = [x for x in again if x["rc"] not in (0, 1)]
+            if not bad:
+                dist["transient_abnormal_exit"] = dist.get("transient_abnormal_exit", 0) + 1
+                cov.setdefault("transient", []).append({"argv": c["argv"], "rc": r["rc"], "PDSH_RCMD_TYPE": c["envtype"]})
+                ctx.log("pdsh ended with status %s once on %s and not in 5 re-runs: counted, not reported" % (r["rc"], c["argv"]))
+                r = again[0]
         line, targets = reg_line(c, transports, luser)
         recs.append((c, r, line, targets))
     text = "".join(l + "\n" for _, _, l, _ in recs)
-    ml = ctx.model("rcmd", text, args=["model", "unchanged"])
+    ml = ctx.model("rcmd", text, args=margs)
     sl = ctx.model("rcmd", text, args=["spec"])
     distinct = set()
     for (c, r, line, targets), m, s in zip(recs, ml, sl):
@@ -418,7 +439,8 @@ def part_c(ctx, cov, dist, rng, repo, only=None):
         if len(cov["samples"]) < 5 and annotated >= 2 and len(targets) <= 6:
             cov["samples"].append({"case": case, "observed": obs, "spec": s})
         if obs != s and not (s == "ok" and not log):
-            two = any(w.count("[") >= 2 and ("@" in w or ":" in w) for w in c["words"])
+            # the known-finding class exists only in the code that registers first-level names
+            two = "reexpand" not in margs and any(w.count("[") >= 2 and ("@" in w or ":" in w) for w in c["words"])
             sig = "reg:two-bracket-annotated" if two else "reg:mismatch"
             dist["offenders"][sig] = dist["offenders"].get(sig, 0) + 1
             ctx.offender(sig, "connections differ from the specification: observed `%s`, specified `%s` (type|host|user|rank)" % (
@@ -441,20 +463,27 @@ def part_b(ctx, cov, dist, rng, repo, variant, only=None):
     pieces = ["", "a", "%h", "%", "x%", "%%", "%%%", "%u-%n", "%x%y", "--opt=%h", "a b", "%%h", "%h%u%n%%", "-n", "%n%"]
     env = {"PATH": "/usr/bin:/bin", "ZV": "q%h"}
     envblock = b"".join(("%s=%s" % kv).encode() + b"\0" for kv in env.items())
-    lines, recs = [], []
+    lines, mlines, recs = [], [], []
     def gen():
         hosts = rng.sample(["h1", "h2", "h3", "n7", "zz"], rng.choice([1, 2, 3]))
         user = rng.choice([None, "u1", "bob"])
         k = rng.choice([0, 1, 2, 2, 3, 4])
         args = [rng.choice(pieces) if rng.random() < 0.75 else "".join(rng.choice(ALPHA) for _ in range(rng.randrange(0, 6)))
                 for _ in range(k)]
-        return {"hosts": hosts, "user": user, "args": args}
+        g = {"hosts": hosts, "user": user, "args": args}
+        if rng.random() < 0.12:
+            # interactive mode: no command words, the command line comes from stdin and goes to `sh -c`
+            g["stdin"] = " ".join(rng.choice(["a", "%h", "%u-%n", "x%%y", "%x", "b7", "%h%n"]) for _ in range(rng.randrange(0, 4)))
+            g["args"] = []
+        return g
     for g in ((gen() for _ in range(n)) if only is None else only):
         hosts, user, args = g["hosts"], g["user"], g["args"]
-        argv = ["-R", "exec", "-w", ",".join(hosts)] + (["-l", user] if user else []) + [helper] + args
+        inter = g.get("stdin")
+        argv = ["-R", "exec", "-w", ",".join(hosts)] + (["-l", user] if user else []) + ([] if inter is not None else [helper] + args)
         try:
             q = subprocess.run([exe] + argv, env=env, stdout=subprocess.PIPE, stderr=subprocess.PIPE,
-                               stdin=subprocess.DEVNULL, timeout=30, cwd=ctx.scratch)
+                               input=((helper + " " + inter + "\n").encode() if inter is not None else b""),
+                               timeout=30, cwd=ctx.scratch)
             rc, out = q.returncode, q.stdout.decode("latin-1")
         except subprocess.TimeoutExpired:
             ctx.offender("timeout", "pdsh -R exec does not finish", {"argv": argv, "gen": g})
@@ -463,14 +492,23 @@ def part_b(ctx, cov, dist, rng, repo, variant, only=None):
         for l in out.splitlines():
             if ": argv " in l:
                 h, rest = l.split(": argv ", 1)
-                got[h] = rest.split()[1:]
+                got[h.split("> ")[-1]] = rest.split()[1:]      # interactive mode prints its prompt in front
         for rank, h in enumerate(hosts):
-            line = "args %s %s %d %s %s %s" % (hx(h), hx(user or "root"), rank, hx("argdump"), bh(envblock),
-                                               " ".join(hx(a) for a in args))
+            if inter is not None:
+                cmdline = (helper + " " + inter).strip()
+                line = "args %s %s %d %s %s %s" % (hx(h), hx(user or "root"), rank, hx("sh"), "-",
+                                                   " ".join(hx(a) for a in ["-c", cmdline]))
+                mline = "execv %s %s %d %s %s" % (hx(h), hx(user or "root"), rank, "-", hx(cmdline))
+            else:
+                line = "args %s %s %d %s %s %s" % (hx(h), hx(user or "root"), rank, hx("argdump"), bh(envblock),
+                                                   " ".join(hx(a) for a in args))
+                mline = "execv %s %s %d %s %s %s" % (hx(h), hx(user or "root"), rank, bh(envblock),
+                                                     hx(" ".join([helper] + args)), " ".join(hx(a) for a in [helper] + args))
             lines.append(line)
+            mlines.append(mline)
             recs.append((argv, h, got.get(h), g))
     text = "".join(l + "\n" for l in lines)
-    ml = ctx.model("rcmd", text, args=["model", variant])
+    ml = ctx.model("rcmd", "".join(l + "\n" for l in mlines), args=["model", variant])
     sl = ctx.model("rcmd", text, args=["spec"])
     for line, (argv, h, got, g), m, s in zip(lines, recs, ml, sl):
         cov["evaluations"] += 1
@@ -482,8 +520,18 @@ def part_b(ctx, cov, dist, rng, repo, variant, only=None):
         if m == "ub":
             # reading past the environment block would be needed: not predicted
             continue
-        if got != exec_view(m):
-            ctx.disagreement("format model vs pdsh -R exec", "helper saw `%s`, model `%s`" % (got, exec_view(m)), case)
+        if g.get("stdin") is not None:
+            # execvp ("sh", {"sh", "-c", LINE}): the helper sees LINE cut at blanks by the shell
+            dist["cli_interactive"] = dist.get("cli_interactive", 0) + 1
+            mv, sv = m.split()[2:], s.split()[1:]
+            if len(mv) != 3 or mv[:2] != [hx("sh"), hx("-c")] or [hx(x) for x in unhx(mv[2]).split()] != got:
+                ctx.disagreement("exec model vs pdsh -R exec (interactive)", "helper saw `%s`, model `%s`" % (got, m), case)
+            if len(sv) != 3 or [hx(x) for x in unhx(sv[2]).split()] != got:
+                ctx.offender("cli:interactive", "interactive -R exec: the helper sees %s, the specified `sh -c` line is %r" % (
+                    [unhx(x) for x in got], unhx(sv[2]) if len(sv) == 3 else s), case)
+            continue
+        if got != m.split()[2:] or m.split()[1] != hx(helper):
+            ctx.disagreement("exec model vs pdsh -R exec", "helper saw `%s`, model `%s`" % (got, m), case)
         if got != s.split()[1:]:
             sig = fmt_signature(line).replace("args:", "cli:")
             dist["offenders"][sig] = dist["offenders"].get(sig, 0) + 1
@@ -637,7 +685,7 @@ def part_d(ctx, cov, dist, rng, repo, only=None):
                                                 "channel connected: %s); specified (a listening port, %r, %r, %r)" % (
                         addr, pf, lu, ru, cm, backok, luser, exp_ru, exp_cmd), dict(case, request=data.hex()))
                 # correspondence with the model of xrcmd's write order
-                ml = ctx.model("rcmd", "req %s %s %s %s\n" % (pf if pf else "none", hx(luser), hx(exp_ru), hx(exp_cmd)),
+                ml = ctx.model("rcmd", "writes %s %s %s %s\n" % (pf if pf else "none", hx(luser), hx(exp_ru), hx(exp_cmd)),
                                args=["model", "unchanged"])
                 if ml[0] != bh(data):
                     ctx.disagreement("rsh request model vs xrcmd", "peer got %s, model %s" % (bh(data), ml[0]), case)
